@@ -357,6 +357,11 @@ impl<'a> Model<'a> {
         // Internal formulas are R1C1 and not anchored to a cell; we parse them
         // in the context of the *source* sheet (the parser already knows that
         // name) so that implicit references resolve to the source sheet index.
+        // Internal formulas are always in the default ("en") locale and language.
+        let locale = self.locale;
+        let language = self.language;
+        self.parser.set_locale(get_default_locale());
+        self.parser.set_language(get_default_language());
         self.parser.set_lexer_mode(LexerMode::R1C1);
         let cell_reference = CellReferenceRC {
             sheet: source_name.clone(),
@@ -371,6 +376,8 @@ impl<'a> Model<'a> {
         }
         new_worksheet.shared_formulas = shared_formulas;
         self.parser.set_lexer_mode(LexerMode::A1);
+        self.parser.set_locale(locale);
+        self.parser.set_language(language);
 
         // Insert the copy right after the source sheet.
         let new_index = source_index as usize + 1;
@@ -476,7 +483,11 @@ impl<'a> Model<'a> {
         let old_name = self.workbook.worksheet(sheet_index)?.get_name();
 
         // Parse all formulas with the old name
-        // All internal formulas are R1C1
+        // All internal formulas are R1C1, in the default ("en") locale and language
+        let locale = self.locale;
+        let language = self.language;
+        self.parser.set_locale(get_default_locale());
+        self.parser.set_language(get_default_language());
         self.parser.set_lexer_mode(LexerMode::R1C1);
 
         for worksheet in &mut self.workbook.worksheets {
@@ -497,6 +508,8 @@ impl<'a> Model<'a> {
 
         // Set the mode back to A1
         self.parser.set_lexer_mode(LexerMode::A1);
+        self.parser.set_locale(locale);
+        self.parser.set_language(language);
 
         // We reparse all the defined names formulas
         let mut defined_names = Vec::new();
